@@ -11,9 +11,15 @@
 //   -DVH_GETEVENT=1 (with VH_ARGMODE=1) the policy's getEvent returns a std::reference_wrapper to the key
 //               ARGUMENT instead of a copy: the dispatcher must copy the key before it forwards the arguments
 //   -DVH_GETEVENT=2 (with VH_ARGMODE=0) the policy's getEvent takes the listener argument by value
+//   -DVH_GETEVENT=3 (with VH_KEY=0) the policy's getEvent returns a type that only CONVERTS to the key (long for int) and
+//               maps the first argument k to the event k + 1000: listeners live at regKey = keyOf + 1000, dispatch is called
+//               with keyOf; a dispatcher that ignores such a policy routes by the raw first argument and finds nobody
 //   -DVH_POLICY=0 default  1 SingleThreading  2 SpinLock
 //   -DVH_MAP=0 default map selection  1 force std::map  2 force std::unordered_map
+//   -DVH_FILL=<byte> the dispatcher's storage is pre-filled with that byte before construction
 #include "common.h"
+#include <cstring>
+#include <new>
 #include "eventpp/utilities/eventutil.h"
 
 #ifndef VH_KEY
@@ -27,6 +33,9 @@
 #endif
 #ifndef VH_MAP
 #define VH_MAP 0
+#endif
+#ifndef VH_FILL
+#define VH_FILL 0xAB
 #endif
 
 namespace {
@@ -105,6 +114,8 @@ struct Policies
 	// takes the trailing argument BY VALUE: if the dispatcher hands getEvent its parameters as rvalues,
 	// this move-constructs `a` from the argument the listeners are to receive afterwards
 	static Key getEvent(const Key & k, Arg a) { (void)a; return k; }
+#elif defined(VH_GETEVENT) && VH_GETEVENT == 3
+	static long getEvent(const Key & k, const Arg &) { return (long)k + 1000; }
 #endif
 #if VH_ARGMODE != 0
 	using ArgumentPassingMode = eventpp::ArgumentPassingIncludeEvent;
@@ -128,12 +139,26 @@ using Proto = void (const Key &, const Arg &);
 
 using D = eventpp::EventDispatcher<Key, Proto, Policies>;
 
+// the key under which the listeners of list slot l are registered
+#if defined(VH_GETEVENT) && VH_GETEVENT == 3
+Key regKey(long l) { return keyOf(l) + 1000; }
+#else
+Key regKey(long l) { return keyOf(l); }
+#endif
+
 struct Case
 {
 	std::map<std::pair<int, int>, std::vector<vh::Cmd>> behav;
 	std::map<int, int> acts;
 	std::map<int, D::Handle> regs;
-	D d;
+	// the dispatcher lives in storage that held VH_FILL bytes before its construction (C20: no result depends on what the
+	// object's memory held before)
+	alignas(D) unsigned char storage[sizeof(D)];
+	D & d;
+	Case() : d(*(std::memset(storage, VH_FILL, sizeof(storage)), new (storage) D())) {}
+	~Case() { d.~D(); }
+	Case(const Case &) = delete;
+	Case & operator = (const Case &) = delete;
 
 	void exec(const std::vector<vh::Cmd> & cmds) { for(const auto & c : cmds) step(c); }
 
@@ -142,12 +167,12 @@ struct Case
 		using vh::num;
 		const std::string & op = c[0];
 		const long l = (c.size() > 1) ? num(c[1]) : 0;
-		if(op == "append") { regs[num(c[3])] = d.appendListener(keyOf(l), Cb{(int)num(c[2]), l}); }
-		else if(op == "prepend") { regs[num(c[3])] = d.prependListener(keyOf(l), Cb{(int)num(c[2]), l}); }
-		else if(op == "insert") { D::Handle before = regs[num(c[3])]; regs[num(c[4])] = d.insertListener(keyOf(l), Cb{(int)num(c[2]), l}, before); }
-		else if(op == "remove") { std::printf("ret %d\n", (int)d.removeListener(keyOf(l), regs[num(c[2])])); }
-		else if(op == "owns") { std::printf("ret %d\n", (int)d.ownsHandle(keyOf(l), regs[num(c[2])])); }
-		else if(op == "empty") { std::printf("ret %d\n", (int)! d.hasAnyListener(keyOf(l))); }
+		if(op == "append") { regs[num(c[3])] = d.appendListener(regKey(l), Cb{(int)num(c[2]), l}); }
+		else if(op == "prepend") { regs[num(c[3])] = d.prependListener(regKey(l), Cb{(int)num(c[2]), l}); }
+		else if(op == "insert") { D::Handle before = regs[num(c[3])]; regs[num(c[4])] = d.insertListener(regKey(l), Cb{(int)num(c[2]), l}, before); }
+		else if(op == "remove") { std::printf("ret %d\n", (int)d.removeListener(regKey(l), regs[num(c[2])])); }
+		else if(op == "owns") { std::printf("ret %d\n", (int)d.ownsHandle(regKey(l), regs[num(c[2])])); }
+		else if(op == "empty") { std::printf("ret %d\n", (int)! d.hasAnyListener(regKey(l))); }
 		else if(op == "invoke") {
 #if VH_ARGMODE == 0
 			d.dispatch(keyOf(l), Arg((int)num(c[2])));
@@ -156,16 +181,16 @@ struct Case
 #endif
 		}
 		else if(op == "foreach") {
-			d.forEach(keyOf(l), [](const D::Handle &, const D::Callback & cb) { std::printf("visit %d\n", cb.id); });
+			d.forEach(regKey(l), [](const D::Handle &, const D::Callback & cb) { std::printf("visit %d\n", cb.id); });
 		}
 		else if(op == "foreachif") {
 			long k = num(c[2]); long seen = 0;
-			bool r = d.forEachIf(keyOf(l), [&](const D::Callback & cb) -> bool { std::printf("visit %d\n", cb.id); ++seen; return seen < k; });
+			bool r = d.forEachIf(regKey(l), [&](const D::Callback & cb) -> bool { std::printf("visit %d\n", cb.id); ++seen; return seen < k; });
 			std::printf("ret %d\n", (int)r);
 		}
-		else if(op == "has") { std::printf("ret %d\n", (int)eventpp::hasListener(d, keyOf(l), Cb{(int)num(c[2]), l})); }
-		else if(op == "removel") { std::printf("ret %d\n", (int)eventpp::removeListener(d, keyOf(l), Cb{(int)num(c[2]), l})); }
-		else if(op == "hasany") { std::printf("ret %d\n", (int)eventpp::hasAnyListener(d, keyOf(l))); }
+		else if(op == "has") { std::printf("ret %d\n", (int)eventpp::hasListener(d, regKey(l), Cb{(int)num(c[2]), l})); }
+		else if(op == "removel") { std::printf("ret %d\n", (int)eventpp::removeListener(d, regKey(l), Cb{(int)num(c[2]), l})); }
+		else if(op == "hasany") { std::printf("ret %d\n", (int)eventpp::hasAnyListener(d, regKey(l))); }
 		else { std::printf("harness-error unsupported op %s\n", op.c_str()); std::fflush(stdout); std::abort(); }
 	}
 };
